@@ -51,6 +51,7 @@ struct Cfg {
     seal: bool,
     via: String, // direct | vfs
     killpriv: bool, // killpriv_v2 configured and negotiated (not a dimension of the property's cube; sampled)
+    nopin: bool,    // harness only: do not pin the files seen (histories about re-used inode numbers)
 }
 
 impl Cfg {
@@ -67,7 +68,7 @@ impl Cfg {
         let cache = ["never", "metadata", "auto", "always"][self.cache as usize];
         json!({"no_open": self.no_open, "no_opendir": self.no_opendir, "ifh": self.ifh, "host_ino": self.host_ino, "wb": self.wb,
                "cache": cache, "xattr": self.xattr, "seal": self.seal, "via": self.via,
-               "eff_no_open": self.eff_no_open(), "eff_no_opendir": self.eff_no_opendir(), "eff_wb": self.eff_wb(), "killpriv": self.killpriv})
+               "eff_no_open": self.eff_no_open(), "eff_no_opendir": self.eff_no_opendir(), "eff_wb": self.eff_wb(), "killpriv": self.killpriv, "nopin": self.nopin})
     }
     fn from_json(j: &J) -> Cfg {
         let b = |k: &str| j[k].as_bool().unwrap_or(false);
@@ -78,7 +79,7 @@ impl Cfg {
             _ => 2,
         };
         Cfg { no_open: b("no_open"), no_opendir: b("no_opendir"), ifh: b("ifh"), host_ino: b("host_ino"), wb: b("wb"), cache, xattr: j["xattr"].as_bool().unwrap_or(true),
-              seal: b("seal"), via: j["via"].as_str().unwrap_or("direct").to_string(), killpriv: b("killpriv") }
+              seal: b("seal"), via: j["via"].as_str().unwrap_or("direct").to_string(), killpriv: b("killpriv"), nopin: b("nopin") }
     }
     fn config(&self, root: &str) -> Config {
         Config {
@@ -108,7 +109,7 @@ fn cube() -> Vec<Cfg> {
     for bits in 0..64u32 {
         for cache in 0..4u8 {
             v.push(Cfg { no_open: bits & 1 != 0, no_opendir: bits & 2 != 0, ifh: bits & 4 != 0, host_ino: bits & 8 != 0, wb: bits & 16 != 0, xattr: bits & 32 != 0,
-                         cache, seal: false, via: "direct".into(), killpriv: false });
+                         cache, seal: false, via: "direct".into(), killpriv: false, nopin: false });
         }
     }
     v
@@ -136,6 +137,13 @@ fn thread_creds() -> J {
 }
 
 fn decode_flags(op: &mut J) {
+    for k in ["name", "name2"] {
+        if let Some(b) = op[k]["b"].as_array().cloned() {
+            let bytes: Vec<u8> = b.iter().map(|x| x.as_u64().unwrap_or(0) as u8).collect();
+            op[format!("{}b", k)] = json!(bytes);
+            op[k] = json!(String::from_utf8_lossy(&bytes).to_string());
+        }
+    }
     let o = op["op"].as_str().unwrap_or("").to_string();
     let f = op["flags"].as_i64().unwrap_or(0) as i32;
     if matches!(o.as_str(), "open" | "create" | "read" | "write" | "opendir") {
@@ -221,7 +229,7 @@ fn neutral(op: &J, cur: u64) -> bool {
     let f = op["flags"].as_i64().unwrap_or(0) as i32;
     match o {
         "open" | "create" => f & (libc::O_TRUNC | libc::O_APPEND) == 0,
-        "write" => f & libc::O_APPEND == 0 && host::u(op, "off") + host::u(op, "len") <= cur,
+        "write" => f & (libc::O_APPEND | libc::O_TRUNC) == 0 && host::u(op, "off") + host::u(op, "len") <= cur,
         "fallocate" => {
             let m = host::u(op, "mode") as i32 & !(libc::FALLOC_FL_KEEP_SIZE | libc::FALLOC_FL_UNSHARE_RANGE);
             (m == 0 || m == libc::FALLOC_FL_PUNCH_HOLE || m == libc::FALLOC_FL_ZERO_RANGE) && host::u(op, "off") + host::u(op, "len") <= cur
@@ -345,6 +353,8 @@ where
     let creds0 = arx.recv().expect("serving thread").creds;
     let mut pids = Ids::new();
     let mut hids = Ids::new();
+    pids.nopin = sg.cfg.nopin;
+    hids.nopin = sg.cfg.nopin;
     let (mut ptree, mut pout) = digests(&sg.proot, &mut pids);
     let (mut htree, mut hout) = digests(&sg.hroot, &mut hids);
     sg.tr.emit(&json!({"e": "Reset", "seg": sg.seg, "mode": sg.mode, "cfg": sg.cfg.json(), "src": sg.src, "gentle": sg.gentle,
@@ -353,6 +363,7 @@ where
         "creds": creds0}));
     let mut hs = HostSide::new(&sg.hroot.join("S/export"));
     hs.xattr = sg.cfg.xattr;
+    hs.wb = sg.cfg.eff_wb();
     hs.no_open = sg.cfg.eff_no_open();
     hs.no_opendir = sg.cfg.eff_no_opendir();
     let mut g = Gen { rng: Rng::new(sg.rng.next()), mode: sg.mode.clone(), no_open: hs.no_open, no_opendir: hs.no_opendir, wb: sg.cfg.eff_wb(),
@@ -518,7 +529,8 @@ fn gate_scripted(tr: &mut Trace, seg: usize) {
     tr.emit(&json!({"e": "ResetGate", "seg": seg, "via": "vfs-scripted"}));
     let ctx = Context { uid: 0, gid: 0, pid: 7 };
     let names: Vec<(Vec<u8>, &str)> = vec![(b"a".to_vec(), "plain"), (b".".to_vec(), "dot"), (b"..".to_vec(), "dotdot"), (b"a/b".to_vec(), "slash"), (b"../x".to_vec(), "slash"),
-                                           (b"/abs".to_vec(), "slash"), (b"x/".to_vec(), "slash"), (b"/".to_vec(), "slash")];
+                                           (b"/abs".to_vec(), "slash"), (b"x/".to_vec(), "slash"), (b"/".to_vec(), "slash"),
+                                           (b"../outside/evil\xff".to_vec(), "slash"), (b"caf\xe9/../../x".to_vec(), "slash"), (b"\x80/\xbf".to_vec(), "slash"), (b"caf\xe9".to_vec(), "plain")];
     let root = 1u64;
     let mut i = 0;
     for (nm, nk) in &names {
@@ -601,7 +613,7 @@ fn forked(path: &str, seg: usize, f: impl FnOnce(&mut Trace)) {
 
 /// Deterministic histories for request classes a random history reaches too rarely.
 fn targeted(mode: &str, work: &Path) -> Vec<(Cfg, Vec<J>)> {
-    let base = Cfg { no_open: false, no_opendir: false, ifh: false, host_ino: false, wb: false, cache: 2, xattr: true, seal: false, via: "direct".into(), killpriv: false };
+    let base = Cfg { no_open: false, no_opendir: false, ifh: false, host_ino: false, wb: false, cache: 2, xattr: true, seal: false, via: "direct".into(), killpriv: false, nopin: false };
     let mut out = Vec::new();
     if mode == "c18" {
         // collapse / insert range with block-aligned ranges strictly inside the three-block file, with and without handles
@@ -660,7 +672,77 @@ fn targeted(mode: &str, work: &Path) -> Vec<(Cfg, Vec<J>)> {
             out.push((cfg, ops));
         }
     }
+    if mode == "c18" {
+        // open-time flags in the flags word of a WRITE (the client's description carries them): without handles and with
+        for no_open in [true, false] {
+            let cfg = Cfg { seal: true, no_open, cache: if no_open { 3 } else { 2 }, ..base.clone() };
+            let h = if no_open { -1 } else { 0 };
+            let mut ops = vec![json!({"op": "lookup", "p": 0, "name": "f3", "nk": "plain"}), json!({"op": "open", "n": 1, "flags": libc::O_RDWR})];
+            for extra in [libc::O_TRUNC, libc::O_CREAT | libc::O_EXCL, libc::O_SYNC, libc::O_TRUNC | libc::O_CREAT, libc::O_DSYNC, libc::O_NOCTTY, libc::O_TRUNC | libc::O_APPEND] {
+                for (off, len) in [(2u64, 3usize), (10, 6)] {
+                    ops.push(json!({"op": "write", "n": 1, "h": h, "off": off, "data": vec![52u8; len], "flags": libc::O_RDWR | extra}));
+                    ops.push(json!({"op": "getattr", "n": 1, "h": -1}));
+                }
+            }
+            out.push((cfg, ops));
+        }
+    }
     if mode == "c05" {
+        // a new file that gets the host inode number of a removed, still referenced one: the entry of the creating request must
+        // denote the created object (requests on the returned number work and show the new file)
+        for ifh in [true, false] {
+            let cfg = Cfg { ifh, nopin: true, ..base.clone() };
+            let mk = |n: &str| json!({"op": "create", "p": 1, "name": n, "nk": "plain", "flags": libc::O_RDWR, "mode": libc::S_IFREG | 0o644, "umask": 0, "uid": 0, "gid": 0});
+            let mut ops = vec![json!({"op": "lookup", "p": 0, "name": "d2", "nk": "plain"})];
+            let (mut ns, mut hs) = (1i64, 0i64);
+            for round in 0..3 {
+                let (a, b) = (format!("A{round}"), format!("B{round}"));
+                ops.push(mk(&a));
+                ns += 1;
+                let (sa, ha) = (ns, hs);
+                hs += 1;
+                ops.push(json!({"op": "write", "n": sa, "h": ha, "off": 0, "data": [65, 65, 65], "flags": libc::O_RDWR}));
+                ops.push(json!({"op": "release", "n": sa, "h": ha}));
+                ops.push(json!({"op": "unlink", "p": 1, "name": a, "nk": "plain"}));
+                if round == 1 {
+                    ops.push(json!({"op": "mkdir", "p": 1, "name": b, "nk": "plain", "mode": 0o755, "umask": 0, "uid": 0, "gid": 0}));
+                    ns += 1;
+                    ops.push(json!({"op": "getattr", "n": ns, "h": -1}));
+                    ops.push(json!({"op": "lookup", "p": ns, "name": "..", "nk": "dotdot"}));
+                    ns += 1;
+                    continue;
+                }
+                ops.push(mk(&b));
+                ns += 1;
+                let (sb, hb) = (ns, hs);
+                hs += 1;
+                ops.push(json!({"op": "getattr", "n": sb, "h": -1}));
+                ops.push(json!({"op": "write", "n": sb, "h": hb, "off": 0, "data": [66, 66], "flags": libc::O_RDWR}));
+                ops.push(json!({"op": "release", "n": sb, "h": hb}));
+                ops.push(json!({"op": "open", "n": sb, "flags": libc::O_RDONLY}));
+                let ho = hs;
+                hs += 1;
+                ops.push(json!({"op": "read", "n": sb, "h": ho, "off": 0, "len": 8, "flags": libc::O_RDONLY}));
+                ops.push(json!({"op": "setattr", "n": sb, "h": -1, "valid": ["MODE"], "attr": {"mode": 0o600}}));
+                ops.push(json!({"op": "lookup", "p": 1, "name": b, "nk": "plain"}));
+                ns += 1;
+                let _ = sa;
+            }
+            out.push((cfg, ops));
+        }
+        // writeback negotiated: a handle opened with O_APPEND; the WRITEs carry the same flags and the offset the client kernel chose
+        for ifh in [false, true] {
+            let cfg = Cfg { wb: true, ifh, ..base.clone() };
+            let fl = libc::O_RDWR | libc::O_APPEND;
+            let ops = vec![json!({"op": "lookup", "p": 0, "name": "f3", "nk": "plain"}), json!({"op": "open", "n": 1, "flags": fl}),
+                           json!({"op": "write", "n": 1, "h": 0, "off": 2, "data": [49, 50, 51], "flags": fl}), json!({"op": "getattr", "n": 1, "h": -1}),
+                           json!({"op": "read", "n": 1, "h": 0, "off": 0, "len": 32, "flags": fl}),
+                           json!({"op": "write", "n": 1, "h": 0, "off": 12, "data": [52, 53], "flags": fl}), json!({"op": "write", "n": 1, "h": 0, "off": 0, "data": [54], "flags": fl}),
+                           json!({"op": "getattr", "n": 1, "h": 0}), json!({"op": "read", "n": 1, "h": 0, "off": 0, "len": 32, "flags": fl}),
+                           json!({"op": "create", "p": 0, "name": "f1", "nk": "plain", "flags": fl, "mode": libc::S_IFREG | 0o644, "umask": 0, "uid": 0, "gid": 0}),
+                           json!({"op": "write", "n": 2, "h": 1, "off": 1, "data": [55, 56], "flags": fl}), json!({"op": "getattr", "n": 2, "h": -1})];
+            out.push((cfg, ops));
+        }
         // killpriv_v2: requests carrying the kill flags that FAIL, then requests whose outcome depends on the serving
         // thread still holding CAP_FSETID (set-gid bit on a file of a foreign group, writes to set-id files)
         for (no_open, ifh) in [(false, false), (true, false), (false, true)] {
@@ -715,6 +797,29 @@ fn targeted(mode: &str, work: &Path) -> Vec<(Cfg, Vec<J>)> {
         }
     }
     if mode == "c06" {
+        // names that are not UTF-8 (Latin-1 bytes, lone continuation bytes, an overlong "/") with '/' and ".." components, on every
+        // request that creates, removes, renames or links a name -- standalone and behind a Vfs, also below a legal Latin-1 directory
+        for via in ["direct", "vfs"] {
+            let cfg = Cfg { via: via.into(), ..base.clone() };
+            let bad: Vec<&[u8]> = vec![b"../outside/evil\xff", b"caf\xe9/../../outside/o1", b"caf\xe9/../../outside/sub", b"\x80\xbf/../../secret", b"d1/\xffg", b"/\xfe", b"\xe9/"];
+            let nm = |b: &[u8]| json!({"b": b});
+            let mut ops = vec![json!({"op": "mkdir", "p": 0, "name": nm(b"caf\xe9"), "nk": "plain", "mode": 0o755, "umask": 0, "uid": 0, "gid": 0}),
+                               json!({"op": "lookup", "p": 0, "name": "f1", "nk": "plain"}),
+                               json!({"op": "create", "p": 0, "name": nm(b"\xc0\xaf"), "nk": "plain", "flags": libc::O_RDWR, "mode": libc::S_IFREG | 0o644, "umask": 0, "uid": 0, "gid": 0})];
+            for b in &bad {
+                ops.push(json!({"op": "mkdir", "p": 0, "name": nm(b), "nk": "slash", "mode": 0o755, "umask": 0, "uid": 0, "gid": 0}));
+                ops.push(json!({"op": "mknod", "p": 0, "name": nm(b), "nk": "slash", "type": "reg", "mode": libc::S_IFREG | 0o644, "rdev": 0, "umask": 0, "uid": 0, "gid": 0}));
+                ops.push(json!({"op": "symlink", "p": 0, "name": nm(b), "nk": "slash", "target": "f1", "uid": 0, "gid": 0}));
+                ops.push(json!({"op": "create", "p": 0, "name": nm(b), "nk": "slash", "flags": libc::O_WRONLY | libc::O_TRUNC, "mode": libc::S_IFREG | 0o644, "umask": 0, "uid": 0, "gid": 0}));
+                ops.push(json!({"op": "link", "n": 2, "p": 0, "name": nm(b), "nk": "slash"}));
+                ops.push(json!({"op": "rename", "p": 0, "name": "f2", "nk": "plain", "p2": 0, "name2": nm(b), "nk2": "slash", "flags": 0}));
+                ops.push(json!({"op": "rename", "p": 0, "name": nm(b), "nk": "slash", "p2": 0, "name2": "zz", "nk2": "plain", "flags": 0}));
+                ops.push(json!({"op": "unlink", "p": 0, "name": nm(b), "nk": "slash"}));
+                ops.push(json!({"op": "rmdir", "p": 0, "name": nm(b), "nk": "slash"}));
+                ops.push(json!({"op": "lookup", "p": 0, "name": nm(b), "nk": "slash"}));
+            }
+            out.push((cfg, ops));
+        }
         // FORGET / BATCH_FORGET of the root with huge counts, then walks upwards through ".."
         for (host_ino, ifh) in [(true, false), (false, false), (true, true), (false, true)] {
             let cfg = Cfg { host_ino, ifh, ..base.clone() };
